@@ -1,13 +1,19 @@
 """Delta debugging on an explicit operation list while the same property and clause fails (DESIGN 3.6)."""
 
 
+def failure_class(violation_dict):
+    """Violations are "the same" while clause, exception type and tripped budget agree."""
+    d = violation_dict.get("detail", {})
+    return (violation_dict["clause"], d.get("exc"), d.get("budget"), d.get("fn"))
+
+
 def _fails_same(eng, trace, ops, clause):
     candidate = dict(trace, ops=ops)
     try:
         violation, index, _ = eng.replay(trace["property"], candidate)
     except Exception:
         return None
-    if violation is None or violation.clause != clause:
+    if violation is None or failure_class(violation.as_dict()) != failure_class(trace["violation"]):
         return None
     return ops[:index + 1]
 
@@ -62,7 +68,7 @@ def minimise(eng, trace, max_exec=400):
     # refresh the recorded violation from the minimised trace
     violation, index, digest = eng.replay(prop, out)
     executions += 1
-    if violation is not None and violation.clause == clause:
+    if violation is not None and failure_class(violation.as_dict()) == failure_class(trace["violation"]):
         out["violation"] = violation.as_dict()
         out["digest"] = digest
     else:
